@@ -18,7 +18,8 @@ LEVEL_TEXT = ('Every Python-visible mutating file-system operation of the explor
               'keep_every_n_steps, overwrite, prefixes.'
               ' Further streams: a worker that starts late while the caller overwrites the saved arrays in place, step 0'
               ' with keep_every_n_steps, two prefixes in one directory (nested prefixes: known finding K6).'
-              ' Round e/f: sign_prefix (prefixes ending in -, + or . and non-normalised directory spellings).')
+              ' Round e/f: sign_prefix (prefixes ending in -, + or . and non-normalised directory spellings).'
+              ' Round g: a Fortran-ordered leaf in every saved tree.')
 LEVEL_NOTE = ('Crashes are modelled at operation boundaries of the Python-visible file API plus torn writes of the legacy file; power-loss '
               'reordering below POSIX, tensorstore C++ writes inside Orbax and non-atomic GCS directory moves are out of reach. Prefixes '
               "ending in a sign/digit/dot and numerically equal steps with different spellings are ambiguous by construction and excluded.")
